@@ -62,8 +62,8 @@ def run(eng, R):
         SG = "SimpleGaussianError"
         check(eng, R, "S-abs", SG, "error", "assign", "self._err_rel * abs(self.reference)", target="self._err", what="absolute error of a relative source = relative error x |reference|", known=KS)
         check(eng, R, "S-abs", SG, "error_rel", "assign", "self._err / abs(self.reference)", target="self._err_rel", what="relative error of an absolute source = error / |reference|", known=KS)
-        check(eng, R, "S-abs", SG, "error.fset", "assign", "err_val / abs(self.reference)", target="self._err_rel", when="=(self.relative)", what="setting absolute values on a relative source divides by |reference|", not_none=True, known=KS)
-        check(eng, R, "S-abs", SG, "error_rel.fset", "assign", "err_val * abs(self.reference)", target="self._err", when="=not (self.relative)", what="setting relative values on an absolute source multiplies by |reference|", known=KS)
+        check(eng, R, "S-abs", SG, "error.fset", "store", "array(err_val, dtype=float) / abs(self.reference)", target="self._err_rel", when="=(self.relative)", what="setting absolute values on a relative source divides by |reference|", not_none=True, known=KS)
+        check(eng, R, "S-abs", SG, "error_rel.fset", "store", "array(err_val, dtype=float) * abs(self.reference)", target="self._err", when="=not (self.relative)", what="setting relative values on an absolute source multiplies by |reference|", known=KS)
         from .formulas import extract
 
         fcm = get_func(p, SG, "_calculate_cov_mat")
